@@ -353,10 +353,18 @@ static void gen_piece(rng_t *r, int depth, int inside_args)
     else if (c < 72) {
         if (rng_chance(r, 1, 5)) { static const char *qv[] = { "''", "\"\"", "'two words'", "\"d q\"", "'$V1'", "'~'", "' '" }; ga("%%put(k%u %s)", rng_below(r, 4), qv[rng_below(r, 7)]); }     /* quoted values, the empty one included */
         else if (rng_chance(r, 1, 10)) { static const char *odd[] = { "%%put()", "%%put(k1)", "%%put(k1 $EMPTY)", "%%put($NOSUCH v)" }; ga(odd[rng_below(r, 4)]); }      /* too few words once expanded */
+        else if (rng_chance(r, 1, 8)) {
+            /* a quoted word first, a plain one after it, and something behind that (white space in front of the parenthesis) */
+            static const char *tail[] = { " ", "\t", "  ", "" };
+            int q = rng_chance(r, 1, 2) ? '"' : '\'';
+            ga("%%put(%c%s%c v%u%s)", q, gen_key(r), q, rng_below(r, 10), tail[rng_below(r, 4)]);
+        }
         else ga("%%put(%s %s%u)", gen_key(r), rng_chance(r, 1, 4) ? "$V1" : "v", rng_below(r, 10));
     }
     else if (c < 80) {
         if (rng_chance(r, 1, 10)) { static const char *odd[] = { "%%get()", "%%get($NOSUCH)", "%%get( )", "%%get($EMPTY d)" }; ga(odd[rng_below(r, 4)]); }                    /* nothing to look up */
+        else if (rng_chance(r, 1, 8)) { static const char *tail[] = { " ", "\t", "  ", "" }; int q = rng_chance(r, 1, 2) ? '"' : '\''; ga("%%get(%c%s%c d%u%s)", q, rng_chance(r, 1, 2) ? "no such" : gen_key(r), q, rng_below(r, 10), tail[rng_below(r, 4)]); }
+        else if (rng_chance(r, 1, 10)) ga("%%get(%s d%u%s)", gen_key(r), rng_below(r, 10), rng_chance(r, 1, 2) ? " " : "\t");
         else if (rng_chance(r, 1, 3)) ga("%%get(%s d%u)", gen_key(r), rng_below(r, 10)); else if (rng_chance(r, 1, 6)) ga("%%get(%s 'a default')", gen_key(r)); else ga("%%get(%s)", gen_key(r));
     }
     else if (c < 83) ga(rng_chance(r, 1, 2) ? "%%version()" : "%%appname()");
@@ -364,6 +372,7 @@ static void gen_piece(rng_t *r, int depth, int inside_args)
         static const char *rw[] = { "abc", "x", "a=b" }; const char *w = rw[rng_below(r, 3)];
         if (rng_chance(r, 1, 2)) ga("%%random(%s %s %s)", w, w, w);
         else if (rng_chance(r, 1, 8)) ga("%%random()");
+        else if (rng_chance(r, 1, 6)) ga(rng_chance(r, 1, 2) ? "%%random(\"one\" two three)" : "%%random('x' x x )");      /* quoted first word, plain ones behind it */
         else ga("%%random(one two%s)", rng_chance(r, 1, 2) ? " three" : "");             /* differing words: any of them */
     }
     else if (c < 90 && depth < 3) { ga("%%get(k%u ", rng_below(r, 5)); gen_piece(r, depth + 1, 1); ga(")"); }
